@@ -37,7 +37,10 @@ D["gen_prefix"] = '===DOC===\nMETA:\n  TYPE::"TEST"\n  VERSION::"1.0"\nGEN_S:\n 
 GEN_S = ('===GEN_S===\nMETA:\n  TYPE::PROTOCOL_DEFINITION\n  VERSION::"1.0"\n\nPOLICY:\n  VERSION::"1.0"\n  UNKNOWN_FIELDS::REJECT\n  TARGETS::[§INDEXER,§SELF]\n\n'
          'FIELDS:\n  NAME::["example"∧REQ∧TYPE[STRING]→§INDEXER]\n  LEVEL::["low"∧OPT∧ENUM[low,lower,high,higher]→§SELF]\n'
          '  COUNT::[1∧OPT∧TYPE[NUMBER]∧RANGE[1,10]→§INDEXER]\n  MODE::["ACTIVE"∧OPT∧ENUM[ACTIVE,ACTION,ARCHIVED]→§SELF]\n'
-         '  A-B::["x"∧OPT→§SELF]\n  A_B::["x"∧OPT→§SELF]\n  CONTENT::["x"∧OPT∧REGEX["^[a-z]+$"]→§SELF]\n===END===\n')
+         '  A-B::["x"∧OPT→§SELF]\n  A_B::["x"∧OPT→§SELF]\n  CONTENT::["x"∧OPT∧REGEX["^[a-z]+$"]→§SELF]\n'
+         '  OUTDIR::["out"∧OPT∧DIR→§SELF]\n  SRCDIR::["src"∧OPT∧DIR→§SELF]\n  CFG::["c"∧OPT∧DIR→§SELF]\n===END===\n')
+# path-valued fields whose text mentions the names of the working directories of the lives (cwdA, cwdB): a path is text, not a place
+D["gen_paths"] = ('===DOC===\nMETA:\n  TYPE::"TEST"\n  VERSION::"1.0"\nGEN_S:\n  NAME::"n"\n  OUTDIR::"../cwdA/out"\n  SRCDIR::"../cwdB/src/../lib"\n  CFG::"../../x"\n===END===\n')
 GEN_W = GEN_S.replace("GEN_S", "GEN_W").replace("UNKNOWN_FIELDS::REJECT", "UNKNOWN_FIELDS::WARN")
 GEN_T = ('===GEN_T===\nMETA:\n  TYPE::PROTOCOL_DEFINITION\n  VERSION::"1.0"\n\nFIELDS:\n  Status::["x"∧REQ∧CONST[abc]→§SELF]\n  STATUS::["x"∧OPT∧DATE→§SELF]\n'
          '  A.B::["x"∧OPT∧ISO8601→§SELF]\n  A_B::["x"∧OPT∧TYPE[BOOLEAN]→§SELF]\n===END===\n')
@@ -96,7 +99,7 @@ def all_calls(level="quick"):
         c += ["validate:DEBATE_TRANSCRIPT:%s:-" % d, "validate:DEBATE_TRANSCRIPT:%s:fix" % d]
     for d in ("gen_ok", "gen_bad", "gen_prefix"):
         c += ["validate:GEN_S:%s:-" % d, "validate:GEN_S:%s:fix" % d, "validate:GEN_W:%s:-" % d]
-    c += ["validate:GEN_S:gen_bad:hint", "validate:NO_SUCH:clean:-"]
+    c += ["validate:GEN_S:gen_bad:hint", "validate:NO_SUCH:clean:-", "validate:GEN_S:gen_paths:-", "validate:GEN_W:gen_paths:-", "write:GEN_S:gen_paths:-"]
     for d in ("clean", "lenient", "sections", "unparseable", "meta_invalid"):
         c.append("write:-:%s:-" % d)
     c += ["write:-:lenient:lenient", "write:META:meta_invalid:-", "write:GEN_S:gen_bad:lenient", "write:GEN_S:gen_bad:hint", "write:GEN_S:gen_ok:-",
